@@ -157,6 +157,7 @@ func NewSnapshotEngine(options ...func(engine *Engine)) *Engine {
 }
 
 func (engine *Engine) TakeSnapshot() error {
+	defer verifhook.Point("snap.return")
 	engine.startSnapshotFunc()
 	defer engine.finishSnapshotFunc()
 
